@@ -128,7 +128,9 @@ pub fn run(tier: Tier) -> i32 {
         for opt in [0u8, 3] { for oc in [true, false] { for da in [true, false] { for packed in [false, true] { v.push(Cfg { opt, oc, da, packed }); } } } }
         v
     } else {
-        vec![BASE, Cfg { opt: 3, oc: false, da: false, packed: false }, Cfg { opt: 0, oc: true, da: true, packed: true }, Cfg { opt: 3, oc: false, da: false, packed: true }]
+        // dev-like and release-like x packed, plus each check axis switched off on its own
+        vec![BASE, Cfg { opt: 3, oc: false, da: false, packed: false }, Cfg { opt: 0, oc: true, da: true, packed: true }, Cfg { opt: 3, oc: false, da: false, packed: true },
+            Cfg { opt: 3, oc: false, da: true, packed: false }, Cfg { opt: 3, oc: true, da: false, packed: false }]
     };
     // build and run all configurations in parallel
     let results: Vec<Result<(String, Hashes), String>> = std::thread::scope(|s| {
@@ -163,7 +165,7 @@ pub fn run(tier: Tier) -> i32 {
     let rc = finish(Finish {
         run: &run,
         level: "model_checking",
-        rule: "Complete enumeration of (build configuration, input): the driver is compiled for every configuration of {overflow-checks on/off} x {debug-assertions on/off} x {opt-level 0/3} x {packed off/on} (thorough: all 16; quick: dev-like and release-like x packed) and walks one deterministic input list: Decimal/Decimal arithmetic (+ - * / % checked_* += -= cmp quantize mul_rounded div_rounded) on boundary operands, the add/mul overflow frontier and the wide-path rounding frontier under the rounding modes; Decimal/integer operations for u8,i32,u64,i128; round/checked_round for n across the i8 range; formatting; unary operations; integer and float conversions in both directions; parsing; rejection of n>18. One outcome per case (value | None | Err(kind) | PANIC), hashed in chunks of 4096; differing chunks are dumped and compared line by line. evaluations = cases x configurations; distinct_nontrivial = cases of the input list.".into(),
+        rule: "Complete enumeration of (build configuration, input): the driver is compiled for every configuration of {overflow-checks on/off} x {debug-assertions on/off} x {opt-level 0/3} x {packed off/on} (thorough: all 16; quick: dev-like and release-like x packed, plus overflow-checks off alone and debug-assertions off alone) and walks one deterministic input list: Decimal/Decimal arithmetic (+ - * / % checked_* += -= cmp quantize mul_rounded div_rounded) on boundary operands, the add/mul overflow frontier and the wide-path rounding frontier under the rounding modes; Decimal/integer operations for u8,i32,u64,i128; round/checked_round for n across the i8 range; formatting; unary operations; integer and float conversions in both directions; parsing; rejection of n>18. One outcome per case (value | None | Err(kind) | PANIC), hashed in chunks of 4096; differing chunks are dumped and compared line by line. evaluations = cases x configurations; distinct_nontrivial = cases of the input list.".into(),
         exhaustive: true,
         assumptions: vec!["differential oracle: the baseline configuration (overflow-checks on, debug-assertions on, opt-level 0, packed off); panic messages are not compared".into(), "scales 0..=18 only (new_raw's debug_assert guards an out-of-contract input)".into()],
         class_name: &class_name,
